@@ -890,6 +890,8 @@ func (s *Server) execute(cs *ConnState, argv [][]byte) Reply {
 		return OK()
 	case "dbsize":
 		return Int(int64(len(db)))
+	case "cluster":
+		return Err("ERR This instance has cluster support disabled") // the model is a standalone server
 	}
 	// any other command: accepted as an opaque write, visible in the log
 	return OK()
